@@ -17,8 +17,8 @@ KANI = [{
     "mode": "in_crate", "repo_crate": "gix-refspec",
     "harness_prefix": "match_group::util::verif_kani::kani_proofs::",
     "functions": FUNCS,
-    "harnesses": [g(2, 1), g(3, 1), g(3, 2), g(3, 3), g(3, 4), g(4, 3), g(4, 5), g(5, 4), g(5, 6, "thorough"), g(7, 5, "thorough"), g(6, 7, "thorough"), g(7, 7, "thorough"),
-                  r(3, 1, 3), r(3, 2, 3), r(3, 3, 2), r(3, 4, 3, "thorough"), r(5, 6, 4, "thorough"),
+    "harnesses": [g(2, 1), g(3, 1), g(3, 2), g(3, 3), g(3, 4), g(4, 3), g(4, 5), g(5, 4), g(5, 6), g(7, 5), g(6, 7), g(7, 7), g(9, 9, "thorough"), g(8, 12, "thorough"),
+                  r(3, 1, 3), r(3, 2, 3), r(3, 3, 2), r(3, 4, 3), r(5, 6, 4, "thorough"), r(6, 8, 5, "thorough"),
                   H("fullname_3_3", bound="names of 3 bytes"), H("fullname_3_4", bound="3 vs 4 bytes")],
 }]
 
